@@ -11,7 +11,7 @@ SPECDIR = os.path.join(ROOT, "spec", "Session")
 HOW = {"fixed": 0, "renew": 1, "browser": 2}
 LOCS = ("both", "server", "client")
 EXPS = ("renew", "fixed", "browser")
-CLAUSES = ("Carry", "Load", "SidForm", "Dead", "Kept", "FreshSid", "Deadline", "Exposed", "Kind", "Cookie")
+CLAUSES = ("Carry", "Load", "SidForm", "Dead", "Kept", "FreshSid", "Deadline", "Exposed", "Kind", "Cookie", "Ops")
 ALLOPS = '{"set","erase","clear","expose","hide","age","how","srv","reset"}'
 
 DESCR = {
@@ -100,7 +100,6 @@ def impl_runs(quick):
     expected counter-examples are the design-level reproduction of the deviations reported by Leg B."""
     runs = [
         ("impl-repaired-both-pol", _impl_text("both", "renew", True, False, ALLOPS, IMPL_INV, 2, 2), None),
-        ("impl-code-noclear-both-adv", _impl_text("both", "renew", False, True, NOCLEAR, IMPL_INV, 3, 1), None),
         ("impl-code-meta", _impl_text("both", "renew", False, True, '{"set","clear","age","how","srv"}', "Carry", 3, 2, adv=(3, 101)), "Carry"),
         ("impl-code-exposed", _impl_text("server", "renew", True, True, NOCLEAR, "Exposed", 3, 2), "Exposed"),
     ]
